@@ -243,6 +243,60 @@ def general(rec, n, quick):
                          monitors=('errmsg',), positions=(0, 1, 2), on_result=on_result, nontrivial=lambda *a: False)
 
 
+def with_ignorable(rec, G, kind):
+    """Error records of grammars that declare ignore patterns: failures in front of, inside and behind
+    ignorable text, blank-only inputs and tails, entry points other than start (which do not skip
+    leading ignorable text), ignore patterns that cover only part of the white space, bytes."""
+    if kind == 'ws':
+        ign, blanks, alpha, bm = ('ignore', ('re', '\\s+', False)), [' ', '\n', '\t', ' \n ', '\r', '\x0c'], 'ab', False
+    elif kind == 'partial':
+        ign, blanks, alpha, bm = ('ignore', ('re', '[ \t]+', False)), [' ', '\t', '  '], 'a\n', False
+    elif kind == 'named':
+        ign, blanks, alpha, bm = ('irule', 'Space', ('str', ' ')), [' ', '  '], 'a\n', False
+    else:
+        ign, blanks, alpha, bm = ('ignore', ('byte', 0x20)), [' ', '  '], 'a\n\t', True
+    G = dict(G, stmts=list(G['stmts']) + [ign])
+    base = work.inputs_for(alpha + ('' if bm else '#'), 3, False)
+    ins = []
+    for t in base:
+        ins.append(t)
+        b = rec.rng.choice(blanks)
+        ins.append(t + b)
+        ins.append(b + t)
+        if len(t) >= 2:
+            ins.append(t[:1] + b + t[1:])
+            ins.append(t[:1] + b + t[1:] + rec.rng.choice(blanks))
+    ins.extend(blanks)
+    ins.extend(x + y for x in blanks for y in blanks)
+    ins = list(dict.fromkeys(ins))
+    if bm:
+        ins = [t.encode('latin-1') for t in ins]
+    entries = work.rule_entries(G)[:4]
+
+    def on_result(b, text, entry, pos, fp, exp, o, model):
+        if o.exc is not None and o.outcome[0] in ('error', 'partial'):
+            rec.nontrivial((b.descs[-1], text, entry, pos))
+            rec.count('error_records_with_ignore')
+
+    work.run_grammar(rec, G, ins, ('ignore', kind), entries=entries, monitors=('errmsg',), positions=(0, 1, 2),
+                     on_result=on_result, nontrivial=lambda *a: False)
+
+
+def general_ignore(rec, n):
+    for i in range(n):
+        if rec.out_of_time():
+            rec.count('cut_by_time')
+            break
+        kind = ('ws', 'partial', 'named', 'bytes')[i % 4]
+        rg = gen.RandomGrammar(rec.rng, maxdepth=rec.rng.randint(2, 4), alphabet='ab' if kind == 'ws' else 'a\n',
+                               bytes_mode=(kind == 'bytes'))
+        G = rg.grammar()
+        if not gen.well_formed(G):
+            rec.drop()
+            continue
+        with_ignorable(rec, G, kind)
+
+
 def run_shard(rec):
     quick = rec.tier == 'quick'
     rec.deadline = time.time() + (300 if quick else 600)
@@ -252,6 +306,7 @@ def run_shard(rec):
     if rec.shard == 0:
         bytes_sweep(rec)
     general(rec, 50 if quick else 800, quick)
+    general_ignore(rec, 40 if quick else 600)
 
 
 def replay(rec, rep):
